@@ -48,6 +48,10 @@ def valences(sym: str) -> List[int]:
 def rewrites(func: Func) -> List[Tuple[ast.AST, str, Optional[str]]]:
     """(sub call, pattern literal, replacement literal) in source order"""
     comps = regexlang.compiled_patterns(func)
+    # patterns compiled once at module level
+    for name, v in func.module.assigns.items():
+        if isinstance(v, ast.Call) and isinstance(v.func, ast.Attribute) and v.func.attr == "compile" and v.args and isinstance(v.args[0], ast.Constant) and isinstance(v.args[0].value, str):
+            comps.append((v, v.args[0].value, name))
     subs = [n for n in own_nodes(func.node) if isinstance(n, ast.Call) and isinstance(n.func, ast.Attribute) and n.func.attr == "sub"]
     subs.sort(key=lambda n: (n.lineno, n.col_offset))
     out = []
@@ -57,7 +61,7 @@ def rewrites(func: Func) -> List[Tuple[ast.AST, str, Optional[str]]]:
             pat = const_str(s.args[0]) if s.args else None
             repl = const_str(s.args[1]) if len(s.args) > 1 else None
         elif isinstance(s.func.value, ast.Name):
-            prev = [c for c in comps if c[2] == s.func.value.id and c[0].lineno <= s.lineno]
+            prev = [c for c in comps if c[2] == s.func.value.id and (c[0].lineno <= s.lineno or c[2] in func.module.assigns)]
             if prev:
                 pat = prev[-1][1]
             repl = const_str(s.args[0]) if s.args else None
